@@ -96,9 +96,15 @@ def run(repo, rep, tier):  # noqa: F811 -- round-5 shape rules appended to the r
     if getattr(rep, "borrowed", False):
         return
     from ..core import round5 as _r5
+    from ..core.report import Only as _O5
+    from . import c01 as _c01b
+    _c01b._r01_5(repo, _O5(rep, {"R01.5"}))
     _r5.positional_annotation_lookup(repo, rep, "R18.9")
 
 
 _ADDR5B = " Borrowed: R18.9 (a user deserialize callable's input annotation is looked up by position)."
 EXPLANATION += _ADDR5B
 LEVEL_TEXT += _ADDR5B
+_ADDR5D = ' Borrowed: R01.5 (specialised from_dict methods are named by an injective digest of module-qualified type names).'
+EXPLANATION += _ADDR5D
+LEVEL_TEXT += _ADDR5D
